@@ -81,7 +81,7 @@ DIRS = ('x', 'y', 'z')
 # plan
 def plan(tier, seed):
     if tier == 'quick':
-        nd, pd, nm, pm, ns, ps = 16, 400, 6, 60, 2, 30
+        nd, pd, nm, pm, ns, ps = 16, 400, 6, 60, 4, 30
     else:
         nd, pd, nm, pm, ns, ps = 160, 640, 48, 100, 16, 50
     out = [{'id': f'dir{k}', 'mode': 'dir', 'k': k, 'n': pd}
@@ -1187,25 +1187,39 @@ def run_sim(rec, mon, batch):
                 r, [([ext, 2*ext], None, None),
                     ([ext, ext], [ext/2, ext], [ext/2, ext/4]),
                     {'x': None, 'y': [ext, ext], 'z': [ext/2, ext/4]}])
-        if r.random() < 0.2:
+        # history at the user's side: what touches the grids first
+        first = gen.choice(r, ['get_grid', 'get_grid', 'repr', 'html',
+                               'print_grid_info'])
+        if r.random() < (0.2 if first == 'get_grid' else 0.6):
             top = max(float(s.center[2]) for s in sources)
-            gopts['seasurface'] = float(np.round(top + r.uniform(5, 800), 1))
+            gopts['seasurface'] = float(np.round(
+                top + (r.uniform(5, 800) if r.random() < 0.5 else
+                       r.uniform(2, 60)), 1))
         auto_domain = [not (('vector' in gopts and DIRS[d_] in
                              gopts['vector']) or
                             ('distance' in gopts and _per_dir(
                                 gopts['distance'], 'distance')[d_] is not None))
                        for d_ in range(3)]
-        case = {'driver': mon.case, 'gridding': gridding,
+        case = {'driver': mon.case, 'gridding': gridding, 'first': first,
                 'gridding_opts': describe(gopts),
                 'sources': [list(map(float, s.center)) for s in sources],
                 'frequencies': freqs}
         rec.case()
         before = rec.r['events'].get('construct_mesh_calls', 0)
         try:
-            with warnings.catch_warnings(record=True):
+            with warnings.catch_warnings(record=True) as uw:
                 warnings.simplefilter('always')
                 sim = emg3d.Simulation(survey, model, gridding=gridding,
                                        gridding_opts=dict(gopts), name='c16')
+                try:
+                    if first == 'repr':
+                        repr(sim)
+                    elif first == 'html':
+                        sim._repr_html_()
+                    elif first == 'print_grid_info':
+                        sim.print_grid_info(return_info=True)
+                except RuntimeError:
+                    pass
                 for sname in survey.sources:
                     for fname in survey.frequencies:
                         try:
@@ -1213,6 +1227,29 @@ def run_sim(rec, mon, batch):
                         except RuntimeError:
                             continue        # loud failure: fine
                         rec.event('simulation_grids')
+                        # the mesh is now in the user's hands: its sea
+                        # surface is a node, or a warning has reached the
+                        # user (not merely been raised somewhere inside)
+                        if 'seasurface' in gopts:
+                            ss = gopts['seasurface']
+                            nz = np.asarray(g.nodes_z, float)
+                            isnode = bool(np.any(np.abs(nz - ss) <= RTOL*max(
+                                abs(ss), nz[-1] - nz[0])))
+                            told = any('easurface' in str(w.message)
+                                       for w in uw)
+                            rec.event('user_level_seasurface_checks')
+                            rec.event('user_level_seasurface_' + (
+                                'node' if isnode else 'miss+warn' if told
+                                else 'miss-silent'))
+                            if not isnode and not told:
+                                rec.violation(
+                                    'C16:seasurface-warning-not-delivered',
+                                    f'Simulation.get_grid({sname!r}, '
+                                    f'{fname!r}) after {first}: sea surface '
+                                    f'{ss} is not a node of the mesh (nodes_z '
+                                    f'around it: {nz[max(0, np.searchsorted(nz, ss)-1):][:2].tolist()}) '
+                                    f'and no warning reached the caller',
+                                    dict(case, first=first))
                         # survey-derived domain contains every instrument
                         pts = [np.array(s.center, float)
                                for s in survey.sources.values()]
@@ -1240,7 +1277,8 @@ def run_sim(rec, mon, batch):
             rec.inconclusive('Simulation-driven gridding raised: ' +
                              traceback.format_exc()[-900:], case)
         if rec.r['events'].get('construct_mesh_calls', 0) > before:
-            rec.distinct(('simulation', gridding, tuple(sorted(gopts))))
+            rec.distinct(('simulation', gridding, first,
+                          tuple(sorted(gopts))))
 
 
 def run_cellnr(rec):
@@ -1306,5 +1344,7 @@ def finalize(merged, tier):
         'seasurface_miss+warn': 30,
         'direction_runtime_errors': 10,
         'simulation_grids': 30, 'survey_extent_checks': 50,
+        'user_level_seasurface_checks': 40,
+        'user_level_seasurface_miss+warn': 10,
         'cellnr_checks': 1000,
     })
